@@ -6,8 +6,11 @@ After every render the object's get_lines() (or ValueError) is compared with
   (a) the extracted Gallina model of the object, ContainerObject.run_ops (whose only state is the tree:
       theorems C16_history_irrelevant, C16_render_again, C16_add_after_render, C16_other_widget), and
   (b) a freshly built equal tree rendered once at the same width by the implementation itself,
-so that state carried from one render to the next is detected even if the model were wrong.
-A mismatch in (b) is a concrete violation of the property (fingerprint "render-history")."""
+so that state carried from one render to the next is detected even if the model were wrong, and, for the
+renders of the OTHER tree (a budgeted subset), with
+  (c) the same other tree rendered alone after re-importing simpleline (fresh class/module state),
+so that state shared between different objects is detected too.
+A mismatch in (b) or (c) is a concrete violation of the property (fingerprint "render-history")."""
 import json, copy
 import lib
 import render_common as rc
@@ -212,6 +215,15 @@ def show(r):
     return {1: "ValueError", 2: "OutOfModel", 3: "chunk-contract", 9: "exception %s" % (r[1:] or "")}.get(r[0], str(r))
 
 
+ISO_BUDGET = [0]
+
+
+def isolated(spec, w):
+    """render spec alone in a fresh module state (class-level / module-level state is reset by the re-import)"""
+    lib.use_repo()
+    return rc.impl_render(rc.build(spec), w)
+
+
 def evaluate(chk, cases, stream):
     res_m = lib.model_run("c16", [[rc.wire_tree(t), [wire_op(o) for o in ops]] for t, ops in cases])
     nbad = 0
@@ -242,12 +254,25 @@ def evaluate(chk, cases, stream):
                               % (j, show(live), show(m[j]), w, json.dumps(cur)[:200]), replay, found=False)
             elif not contract_bad and m[j][0] == 2:
                 chk.hist("model=out-of-model")
+            if fresh is None and ISO_BUDGET[0] > 0:
+                ISO_BUDGET[0] -= 1
+                chk.hist("isolated-other-render")
+                iso = isolated(cur, w)
+                if iso != live:
+                    nbad += 1
+                    chk.violation("render-history",
+                                  "output %d of the history %s on %s: the other tree %s rendered at width %d shows %s after the first tree was "
+                                  "rendered, but %s when rendered alone in a fresh interpreter state (C16_other_widget: rendering one widget "
+                                  "never changes how another renders)"
+                                  % (j, json.dumps([list(o) for o in ops])[:200], json.dumps(tree)[:120], json.dumps(cur)[:120], w,
+                                     show(live), show(iso)), replay, found=True)
         if nbad > 40:
             return
 
 
 def run(chk, tier):
     lib.use_repo()
+    ISO_BUDGET[0] = 150 if tier == "quick" else 3000
     fixed = fixed_cases()
     for tree, ops in fixed[:2] + fixed[3:4]:
         outs = run_impl(tree, ops)
@@ -272,6 +297,9 @@ def replay(path):
         mj = m[j] if len(m) == len(outs) else None
         print("output %d (width %d): long-lived %s | fresh %s | model %s" % (j, w, show(live), show(fresh), show(mj)))
         if fresh is not None and live != fresh:
+            bad = 1
+        elif fresh is None and isolated(cur, w) != live:
+            print("   rendered alone in a fresh interpreter state:", show(isolated(cur, w)))
             bad = 1
         elif mj is not None and mj[0] in (0, 1) and live[:2] != mj[:2]:
             bad = 1
